@@ -332,6 +332,10 @@ func c12Call(w *world, n *node, c int) apiResult {
 			_, err := n.leaf.Cache().List()
 			return apiResult{"Cache().List on " + n.path(), err, nil}
 		}
+		if c%4 == 1 {
+			_, err := n.leaf.Cache().GetObject(mkPod("a", "p", "1", nil))
+			return apiResult{"Cache().GetObject on " + n.path(), err, nil}
+		}
 		_, err := n.leaf.Cache().Get("a", "p")
 		return apiResult{"Cache().Get on " + n.path(), err, nil}
 	}
